@@ -253,7 +253,7 @@ def miri_jobs(prop, pkg, ctx, shards, extra=None, release=True, miriflags=""):
     """Shards interpreted by Miri (release profile: the unchecked fast paths are what is interpreted)."""
     tdir = os.path.join(ctx["TARGET"], "miri")
     env = dict(MIRIFLAGS=("-Zmiri-disable-isolation " + miriflags).strip(), CARGO_NET_OFFLINE="true", RUSTFLAGS="")
-    base = ["cargo", "+nightly", "miri", "run", "--offline", "-q", "-p", pkg, "--target-dir", tdir] + (["--release"] if release else [])
+    base = ["cargo", "+nightly", "miri", "run", "--offline", "-q", "-p", pkg, "--bin", pkg, "--target-dir", tdir] + (["--release"] if release else [])
     # warm-up build (serial) so that the parallel shards do not fight over the build lock
     e = dict(os.environ); e.update(env)
     r = subprocess.run(base + ["--", "noop"], cwd=HARNESS, env=e, stdout=subprocess.PIPE, stderr=subprocess.STDOUT, text=True)
